@@ -268,8 +268,29 @@ func (c *Ctx) errPropagated(call ssa.CallInstruction) (bool, string) {
 			}
 		}
 	}
-	// find the nil test
+	// returned without a test (possibly merged with other results in a phi): every
+	// return reachable from the call hands e back
 	fn := call.Parent()
+	{
+		hasRet := false
+		for _, b := range fn.Blocks {
+			if len(b.Instrs) > 0 && returnsErr(e, b.Instrs[len(b.Instrs)-1]) {
+				hasRet = true
+			}
+		}
+		if hasRet {
+			q := PathQuery{From: call.(ssa.Instruction), Cut: func(i ssa.Instruction) bool { return returnsErr(e, i) }, Goal: func(i ssa.Instruction) bool {
+				if ifi, ok := i.(*ssa.If); ok && testsNil(ifi.Cond, e) {
+					return true // a test comes first: judged below
+				}
+				return IsReturn(i)
+			}}
+			if q.Find() == nil {
+				return true, "returned (merged with the other outcomes)"
+			}
+		}
+	}
+	// find the nil test
 	for _, b := range fn.Blocks {
 		if len(b.Instrs) == 0 {
 			continue
@@ -296,7 +317,12 @@ func (c *Ctx) errPropagated(call ssa.CallInstruction) (bool, string) {
 			return false, "on the non-nil edge a return does not hand the error back (" + c.P.InstrPos(p[len(p)-1]) + ")"
 		}
 		if !InstrDominates(call.(ssa.Instruction), ifi) {
-			continue
+			// the error may reach the test through a phi (the call sits in an inlined
+			// helper that can also return without calling): then the call need not
+			// dominate the test, it only has to flow into it
+			if rel.X == e || !Reaches(call.(ssa.Instruction), ifi) {
+				continue
+			}
 		}
 		return true, "non-nil edge returns the error"
 	}
@@ -529,6 +555,32 @@ func carriesErr(e, v ssa.Value, d int) bool {
 		return carriesErr(e, x.X, d+1)
 	case *ssa.ChangeInterface:
 		return carriesErr(e, x.X, d+1)
+	case *ssa.UnOp:
+		// results spilled to a local cell (functions with defer, named results):
+		// the value loaded is the one stored last before the load in this block,
+		// or, failing that, whatever is stored into the cell on the way here
+		if a, ok := x.X.(*ssa.Alloc); ok && x.Op == token.MUL {
+			b := x.Block()
+			var last *ssa.Store
+			for _, in := range b.Instrs {
+				if in == ssa.Instruction(x) {
+					break
+				}
+				if st, ok := in.(*ssa.Store); ok && st.Addr == ssa.Value(a) {
+					last = st
+				}
+			}
+			if last != nil {
+				return carriesErr(e, last.Val, d+1)
+			}
+			if a.Referrers() != nil {
+				for _, ref := range *a.Referrers() {
+					if st, ok := ref.(*ssa.Store); ok && st.Addr == ssa.Value(a) && carriesErr(e, st.Val, d+1) && Reaches(st, x) {
+						return true
+					}
+				}
+			}
+		}
 	}
 	return false
 }
